@@ -439,28 +439,28 @@ Theorem C02_loads_stream_partial :
   forall (st : fstyle) (a : adoc) (x : xsstyle) (file : bytes),
     s_xref st = XStream x -> s_ostms st = [] -> xs_filter x = SfNone -> ref_write st a = Some file ->
     Forall LoadsTableProofs.top_ok (LoadsTableProofs.tops st a) -> Utf.utf8_decode (a_version a) <> None ->
-    (spell_wf (ODict (LoadsStreamProofs.xd st a x)) (i_obj (xs_istyle x)) /\
-     (nest (ODict (LoadsStreamProofs.xd st a x)) <= MAX_DEPTH)%nat /\
+    (spell_wf (ODict (LoadsStreamProofs.xdp st a x)) (i_obj (xs_istyle x)) /\
+     (nest (ODict (LoadsStreamProofs.xdp st a x)) <= MAX_DEPTH)%nat /\
      dict_get (a_trailer a) K_Prev = None /\ dict_get (a_trailer a) K_Encrypt = None /\
      dict_get (a_trailer a) K_Filter = None /\ dict_get (a_trailer a) K_Index = None) ->
     (LoadsTableProofs.xpos st a <= u32_max /\ LoadsStreamProofs.sizeS a x <= u32_max /\ 25 < LoadsTableProofs.xpos st a) ->
     (9 + length (LoadsTableProofs.sx_mid (s_sx_eol1 st) (s_sx_sp1 st) (LoadsTableProofs.xpos st a) (s_sx_sp2 st) (s_sx_eol2 st)) <= 25)%nat ->
     exists d, load file = LOk d XTStream /\
-      d_version d = a_version a /\ d_trailer d = LoadsStreamProofs.t0S st a x /\
+      d_version d = a_version a /\ d_trailer d = LoadsStreamProofs.t0S st a x [] (LoadsStreamProofs.raw st a x) /\
       (forall tp, In tp (LoadsTableProofs.tops st a) ->
                   lookup (d_objects d) (fst (fst tp)) = Some (LoadsTableProofs.loaded_top tp)) /\
       lookup (d_objects d) (xs_id x, 0) =
-        Some (stream_new (LoadsStreamProofs.dd st a x) (LoadsStreamProofs.raw st a x)) /\
+        Some (stream_new (LoadsStreamProofs.dd st a x [] (LoadsStreamProofs.raw st a x)) (LoadsStreamProofs.raw st a x)) /\
       (forall id o, lookup (d_objects d) id = Some o ->
                     (exists tp, In tp (LoadsTableProofs.tops st a) /\ fst (fst tp) = id) \/ id = (xs_id x, 0)).
 Proof. exact LoadsStreamProofs.loads_stream_file. Qed.
 
 Theorem C02_stream_trailer_reading :
   forall (st : fstyle) (a : adoc) (x : xsstyle) (k : bytes),
-    spell_wf (ODict (LoadsStreamProofs.xd st a x)) (i_obj (xs_istyle x)) ->
-    dict_get (LoadsStreamProofs.t0S st a x) k =
+    spell_wf (ODict (LoadsStreamProofs.xdp st a x)) (i_obj (xs_istyle x)) ->
+    dict_get (LoadsStreamProofs.t0S st a x [] (LoadsStreamProofs.raw st a x)) k =
     if bytes_eqb k K_Index || bytes_eqb k K_W || bytes_eqb k Obj.K_Length then None
-    else dict_get (denote_dict (LoadsStreamProofs.xd st a x) (dict_sts (i_obj (xs_istyle x)))) k.
+    else dict_get (denote_dict (LoadsStreamProofs.xdp st a x) (dict_sts (i_obj (xs_istyle x)))) k.
 Proof. exact LoadsStreamProofs.stream_trailer_reading. Qed.
 
 Definition ex_xsstyle : xsstyle :=
@@ -478,12 +478,12 @@ Definition ex_fstyle_s : fstyle :=
    holding a comment "xref" after "obj", "stream" CR LF and no end-of-line before "endstream" *)
 Theorem C02_example_loads_stream :
   ref_write ex_fstyle_s ex_adoc <> None /\
-  LoadsStreamProofs.xd ex_fstyle_s ex_adoc ex_xsstyle =
+  LoadsStreamProofs.xdp ex_fstyle_s ex_adoc ex_xsstyle =
     [(bs "Type", OName (bs "XRef")); (bs "Size", OInt 10); (bs "W", OArr [OInt 0; OInt 1; OInt 1]);
      (bs "Index", OArr [OInt 3; OInt 1; OInt 7; OInt 1; OInt 9; OInt 1]); (bs "Root", ORef 7 0); (bs "Length", OInt 6)] /\
   Forall LoadsTableProofs.top_ok (LoadsTableProofs.tops ex_fstyle_s ex_adoc) /\
-  (spell_wf (ODict (LoadsStreamProofs.xd ex_fstyle_s ex_adoc ex_xsstyle)) (i_obj (xs_istyle ex_xsstyle)) /\
-   (nest (ODict (LoadsStreamProofs.xd ex_fstyle_s ex_adoc ex_xsstyle)) <= MAX_DEPTH)%nat /\
+  (spell_wf (ODict (LoadsStreamProofs.xdp ex_fstyle_s ex_adoc ex_xsstyle)) (i_obj (xs_istyle ex_xsstyle)) /\
+   (nest (ODict (LoadsStreamProofs.xdp ex_fstyle_s ex_adoc ex_xsstyle)) <= MAX_DEPTH)%nat /\
    dict_get (a_trailer ex_adoc) K_Prev = None /\ dict_get (a_trailer ex_adoc) K_Encrypt = None /\
    dict_get (a_trailer ex_adoc) K_Filter = None /\ dict_get (a_trailer ex_adoc) K_Index = None) /\
   (LoadsTableProofs.xpos ex_fstyle_s ex_adoc <= u32_max /\ LoadsStreamProofs.sizeS ex_adoc ex_xsstyle <= u32_max /\
@@ -493,7 +493,7 @@ Theorem C02_example_loads_stream :
 Proof.
   assert (Hx : LoadsTableProofs.xpos ex_fstyle_s ex_adoc = 117) by (vm_compute; reflexivity).
   assert (Hs : LoadsStreamProofs.sizeS ex_adoc ex_xsstyle = 10) by (vm_compute; reflexivity).
-  assert (Hd : LoadsStreamProofs.xd ex_fstyle_s ex_adoc ex_xsstyle =
+  assert (Hd : LoadsStreamProofs.xdp ex_fstyle_s ex_adoc ex_xsstyle =
     [(bs "Type", OName (bs "XRef")); (bs "Size", OInt 10); (bs "W", OArr [OInt 0; OInt 1; OInt 1]);
      (bs "Index", OArr [OInt 3; OInt 1; OInt 7; OInt 1; OInt 9; OInt 1]); (bs "Root", ORef 7 0); (bs "Length", OInt 6)])
     by (vm_compute; reflexivity).
